@@ -86,9 +86,8 @@ func (n Name) Split() (parts []string) {
 			} else if dg && !num && buf.Len() > 0 && !lodash { // new digit
 				parts = append(parts, buf.String())
 				buf.Reset()
-			} else if !uc && capt && buf.Len() > 1 { // upper to lower
-				if ss := buf.String(); len(ss) > 1 &&
-					(len(ss) != 2 || ss[0] != '_') {
+			} else if !uc && capt && utf8.RuneCount(buf.Bytes()) > 1 { // upper to lower
+				if ss := buf.String(); utf8.RuneCountInString(ss) != 2 || ss[0] != '_' {
 					pr, _ := utf8.DecodeLastRuneInString(ss)
 					parts = append(parts, strings.TrimSuffix(ss, string(pr)))
 					buf.Reset()
